@@ -708,6 +708,7 @@ SHIM_TABLE = {
     "sla.cho_solve": "cho_solve((c, lower), b) solves (c c^T) x = b for lower, (c^T c) x = b for upper factors (SciPy's convention, by two triangular solves)",
     "sla.sqrtm": "closed form for 1x1 / 2x2 symmetric positive definite input",
     "sla.block_diag": "block diagonal stacking",
+    "utils.hash_array": "hash of the (expanded) symbolic entries and the shape instead of the array's bytes: equal contents <=> equal hash, as for float arrays of one dtype",
 }
 
 
